@@ -37,6 +37,13 @@ P = {
  "C10": ("proof", "4.C10", "Coq proof over executable model + differential correspondence (every code point as needle)", "First-member-of-orbit characterisation of index_rune and the byte-pattern characterisation of IndexByte proved; every orbit-bearing code point and a stride of the others run as needle and haystack member."),
  "C11": ("proof", "4.C11", "Coq proof over executable model + differential correspondence (threshold grid)", "First/last code point fold-equal to some code point of chars proved for Spec; the three internal strategies are crossed by a (len s, len chars) grid."),
  "C12": ("proof", "4.C12", "Coq proof over executable model + differential correspondence", "Greedy unfolding of Count and the exact split of Cut proved for Spec."),
+ "C13": ("other", "4.C13", "Coq proof for every pure-Go kernel body (unbounded length) + guard-page sweep of the amd64 assembly against the same scalar definition",
+         "PARTIAL: the pure-Go kernel bodies (portable, no-POPCNT fallback, standard-library based) are proved equal to the scalar definition for every length and content; "
+         "the amd64 assembly is NOT proved: it is swept (lengths 0..200 + page-crossing lengths quick / 0..4352 thorough, all alignments, flush against PROT_NONE pages both sides, "
+         "needle-filled surroundings, 256x256 byte pairs per code path) on the real CPU with faults caught. A machine model of the assembly is future work (DESIGN 4.C13)."),
+ "C14": ("other", "4.C14", "Coq proof that all Go-level kernel variants equal one scalar definition + the correspondence corpus executed under 6 configurations and compared case by case",
+         "PARTIAL: configurations = runtime AVX2, cpu.avx2=off, cpu.popcnt=off, both off, GOAMD64=v3, GOARCH=386 (portable file set, executed natively), plus the standard-library based kernels compiled on the host. "
+         "Real non-x86 hardware and a CPU without AVX2 (the linknamed runtime IndexString still sees AVX2) are out of reach."),
  "C15": ("proof", "4.C15", "Coq proof (all Spec theorems are over utf8.DecodeRune segmentation, no well-formedness hypothesis) + ill-formed corpus", "Every Spec characterisation holds for arbitrary bytes; the decoder model is validated against unicode/utf8; all 23 functions run on a dense ill-formed corpus and exhaustive small alphabets."),
  "C16": ("proof", "4.C16", "Coq proof (key invariance under re-casing) + relation evaluated on the implementation", "All results are functions of the folded key; offsets are the same code-point index. The relation is also evaluated directly on both packages with width-changing orbit members."),
  "C17": ("proof", "4.C17", "Coq proof of each relation for Spec + relations evaluated on the implementation", "Every listed relation proved for Spec on all byte strings except IndexRune=Index(string(r)) and IndexByte=Index(string(c)), which are evaluated on the implementation only."),
